@@ -14,6 +14,12 @@ CLAIMED = {
          "seeded simulation with line-corruption fault injection; reference-model oracle", "4 C06"),
  "C17": ("same RTU runs (1/5 of frames to unit 0) plus the TCP runs: silence for unconfigured ids, broadcast writes applied once to every unit and never answered, broadcast reads ignored",
          "seeded simulation; reference-model oracle over unit-id space", "4 C17"),
+ "C07": ("seeded adversarial byte streams (grammar-aware garbage) against all four role/transport combinations at random decode levels with log formatting forced, overflow checks and debug assertions on; panic capture around every poll, spin / runaway-poll watchdogs, healthy-session and fresh-connection liveness after the fault, shutdown honoured",
+         "seeded simulation with peer-garbage fault injection; panic/spin watchdogs; bounded liveness after faults stop", "4 C07"),
+ "C15": ("lock-step simulation of the real TCP server against model::sessions: ordered live set, eviction of the oldest exactly at the limit, isolation, shutdown / handle drop closes everything",
+         "seeded simulation; reference-model oracle over connection histories", "4 C15"),
+ "C16": ("simulation with arbitrary peer source addresses (impossible over loopback): non-matching peers get zero bytes + EOF, matching peers are served; wildcard parser grammar. Rust API over plain TCP in this round",
+         "seeded simulation over filter x source-address lattice; reference filter model", "4 C16"),
  "C10": ("exact lock-step comparison of the real client task with model::client over seeded action/fault sequences (replies, timeouts, I/O errors, enable/disable, shutdown, handle drop, task abort, clock jumps) in virtual time; exactly-once and result class per request",
          "seeded simulation with fault injection; refinement against an executable reference model", "4 C10"),
  "C11": ("same lock-step runs: wire frames and tx ids vs model; stale/duplicate/future/unsolicited frames never complete a request; 66 000-request wrap run",
